@@ -64,7 +64,7 @@ VARIABLES
     held,      \* offsets of pointers the client received and has not freed yet
     cpc,       \* client: "idle" | "in" | "out" | "tail"
     spc,       \* server: "read" | "ensure" | "resolve" | "expose" | "nosegcheck" | "dispatch" |
-               \*         "unary" | "sinit" | "sin" | "turn" | "sclose" | "drain" | "misdrain" | "dead"
+               \*         "unary" | "sinit" | "sin" | "turn" | "drain" | "misdrain" | "dead"
     cur,       \* the call in progress
     req,       \* server: the request being served [ptr, off]
     eng,       \* server: req.Shm # nil
@@ -99,7 +99,6 @@ GapBefore(t, i) == Off(t[i]) - (IF i = 1 THEN 0 ELSE End(t[i-1]))
 TailStart(t) == IF Len(t) = 0 THEN 0 ELSE End(t[Len(t)])
 InsertAt(t, i, e) == SubSeq(t, 1, i-1) \o <<e>> \o SubSeq(t, i, Len(t))
 RemoveAt(t, i) == SubSeq(t, 1, i-1) \o SubSeq(t, i+1, Len(t))
-HasOff(t, o) == \E i \in 1..Len(t) : Off(t[i]) = o
 
 \* allocateLocked(n): first fit
 AllocResult(t, n, tag) ==
@@ -379,8 +378,6 @@ RecvNothing ==
                    inclosed, mine, xfer, sent, rogue, extra, ncalls, closed>>
     /\ Silent
 
-RECURSIVE OffsOf(_)
-OffsOf(ms) == IF ms = <<>> THEN <<>> ELSE <<Head(ms).off>> \o OffsOf(Tail(ms))
 \* Gone(n, t): for each of the client's n regions, whether it has left the table
 RECURSIVE GoneFrom(_, _, _)
 GoneFrom(k, n, t) == IF k > n THEN <<>> ELSE << ~(\E i \in 1..Len(t) : t[i][3] = k) >> \o GoneFrom(k + 1, n, t)
